@@ -544,7 +544,7 @@ func genProgram(r *rand.Rand, name, template string) *GenProgram {
 		forms = []string{"func", "closure", "method-val", "method-ptr", "generic"}
 		withLib = true
 		blockingP = 50
-		nFn = 6 + r.Intn(5)
+		nFn = 4 + r.Intn(3)
 		p.NonASCII = r.Intn(3) == 0
 	}
 	var fns []*fnSpec
@@ -552,9 +552,9 @@ func genProgram(r *rand.Rand, name, template string) *GenProgram {
 		fs := &fnSpec{form: forms[r.Intn(len(forms))], pkg: pkg, nonascii: p.NonASCII && r.Intn(4) != 0}
 		fs.blocking = r.Intn(100) < blockingP
 		fs.realBlk = fs.blocking && r.Intn(2) == 0
-		fs.nKinds = 5 + r.Intn(14)
+		fs.nKinds = 5 + r.Intn(10)
 		if template == "mixed-big" {
-			fs.nKinds = 10 + r.Intn(25)
+			fs.nKinds = 8 + r.Intn(16)
 		}
 		if pkg == "lib" {
 			fs.name = fmt.Sprintf("F%d", i)
@@ -667,7 +667,7 @@ func genProgram(r *rand.Rand, name, template string) *GenProgram {
 	// main()
 	s = mainSrc
 	s.L("func main() {")
-	s.L("\tjs.Global.Get(\"Error\").Set(\"stackTraceLimit\", 200)")
+	s.L("\tjs.Global.Get(\"Error\").Set(\"stackTraceLimit\", 24)")
 	for i := 0; i < nInit; i++ {
 		s.L(fmt.Sprintf("\tuse(g%d)", i))
 	}
